@@ -48,6 +48,10 @@ def ob_broadcast_unfiltered(run, o):
 
 
 def check(run):
+    # "its own votes for later slots": get_own_votes can only hand over what the pool stored - every vote given to SlotState::add_vote is recorded, whatever
+    # certificates the slot already holds
+    from . import C04 as _C04r
+    _C04r.ob_recorded(run, "O18.10")
     D.ob_state_mutations(run, "O18.9", ['consensus::votor::Votor'], 'the Votor forwards a bundle whenever it is handed one: any memory of earlier bundles (already forwarded for this slot, ..) filters the very re-broadcast the mechanism exists for')
     # "all of them pass validation at a receiver": the certificates in the bundle are the ones the pool created / admitted - created only
     # behind their quorum predicate over the right stake counters and aggregated from exactly the stored votes of their kind
